@@ -35,7 +35,7 @@ func (c01Mon) after(h *H, s *step) {
 			cls = "ended-session"
 		case strings.Contains(why, "holds no tokens"):
 			cls = "no-tokens"
-		case strings.Contains(why, "absolute timeout"):
+		case strings.Contains(why, "absolute timeout"), strings.Contains(why, "idle timeout"):
 			cls = "session-timeout"
 		case strings.Contains(why, "expired"):
 			cls = "expired-tokens"
@@ -185,6 +185,16 @@ func c01Random(c *sim.Case) {
 		b := sim.Pick(c, "prefix.b", 2)
 		pre := []op{{K: "login", B: b, Target: "/a"}, {K: "advance", B: b, Rel: sim.PickStr(c, "prefix.rel", "idexp", "atexp"), D: time.Duration(1+sim.Pick(c, "prefix.off", 3)) * 500 * time.Millisecond}, {K: "nav", B: b, Target: "/a"}}
 		ops = append(pre, ops...)
+	}
+	if sim.Weighted(c, "idle-timeout", 2, 1) == 1 {
+		ho.o.Idle = []time.Duration{30 * time.Second, 5 * time.Minute, 20 * time.Minute}[sim.Pick(c, "idle", 3)]
+		if sim.Bool(c, "idle-prefix") {
+			// a session left alone until either side of its idle limit, then touched through a drawn kind of request
+			b := sim.Pick(c, "idle.b", 2)
+			touch := []op{{K: "nav", B: b, Target: "/a"}, {K: "attack", B: b, B2: b, Att: "forged-callback", Arg: "code=x&state=y"}, {K: "logout", B: b}, {K: "nav", B: b, Target: "/cb"}}[sim.Pick(c, "idle.touch", 4)]
+			pre := []op{{K: "login", B: b, Target: "/a"}, {K: "advance", B: b, Rel: "idle", D: []time.Duration{-2 * time.Second, 2 * time.Second, time.Minute}[sim.Pick(c, "idle.off", 3)]}, touch, {K: "nav", B: b, Target: "/a"}}
+			ops = append(pre, ops...)
+		}
 	}
 	h1, h2 := runWithFaults(c, ho, ops, func() []monitor { return []monitor{c01Mon{}} }, 2)
 	c01Classify(c, ho, h1, h2)
